@@ -120,9 +120,10 @@ theorem codeRawNeg_lt_inf (b sh : Nat) (hb53 : 2 ^ 53 ≤ b) (hb256 : b < 2 ^ 25
   have : (Be + 1022 - sh) * 2 ^ 52 ≤ 1277 * 2 ^ 52 := Nat.mul_le_mul_right _ hexp
   omega
 
-/-- **Negative-exponent scaling is within one ulp** for mantissas of at least three digits (`≥ 257`)
+/-- **Negative-exponent scaling is within one ulp** whenever `2^(x/27) ≤ 16·num` (every mantissa for `x ≤ 134`, every mantissa `≥ 257` for `x ≤ 350`)
 and `x ≤ 350`, in the normal and in the subnormal range. -/
-theorem powerOfNegativeTen_close (num x : Nat) (hn257 : 257 ≤ num) (hn : num < 2 ^ 64) (hx : x ≤ 350) :
+theorem powerOfNegativeTen_close (num x : Nat) (hn0 : 0 < num) (hnx : 2 ^ (x / 27) ≤ 16 * num) (hn : num < 2 ^ 64)
+    (hx : x ≤ 350) :
     ∃ p, powerOfNegativeTen num x = some p ∧ ulpDist p (nearestMag num (10 ^ x)) ≤ 1 := by
   obtain ⟨b, S, k, hps, hk, hS, e1, e2⟩ := negScale_error num x hn (by omega)
   have hdiv : x / 27 ≤ 12 := by omega
@@ -131,11 +132,11 @@ theorem powerOfNegativeTen_close (num x : Nat) (hn257 : 257 ≤ num) (hn : num <
   have hb256 := negScale_lt num x b _ hps
   -- b ≥ 2^59
   have hb59 : 2 ^ 59 ≤ b := by
-    have h1 : 2 ^ (x / 27 + 1) * (b + 1) ≤ 2 ^ 13 * (b + 1) :=
-      Nat.mul_le_mul_right _ (Nat.pow_le_pow_right (by decide) (by omega))
-    have h2 : 257 * 2 ^ 64 ≤ num * 2 ^ 64 := Nat.mul_le_mul_right _ hn257
-    have h3 : 2 ^ 13 * 2 ^ 59 < 257 * 2 ^ 64 + 1 := by decide
-    have h4 : 2 ^ 13 * 2 ^ 59 < 2 ^ 13 * (b + 1) := by omega
+    have h2 : 2 ^ (x / 27 + 1) * 2 ^ 59 ≤ num * 2 ^ 64 := by
+      calc 2 ^ (x / 27 + 1) * 2 ^ 59 = 2 ^ (x / 27) * 2 ^ 60 := by rw [Nat.pow_succ]; ring
+        _ ≤ 16 * num * 2 ^ 60 := Nat.mul_le_mul_right _ hnx
+        _ = num * 2 ^ 64 := by rw [show (2 : Nat) ^ 64 = 16 * 2 ^ 60 by decide]; ring
+    have h4 : 2 ^ (x / 27 + 1) * 2 ^ 59 < 2 ^ (x / 27 + 1) * (b + 1) := by omega
     have := Nat.lt_of_mul_lt_mul_left h4
     omega
   have hb0 : b ≠ 0 := by intro h; subst h; exact absurd hb59 (by decide)
